@@ -12,7 +12,7 @@ def runStore (c obs : String) : String × String × Bool :=
   match splitOn1 c ';' with
   | [] => ("bad-case", "bad-case", false)
   | h :: ops =>
-    let isFile := (words h).head? == some "file"
+    let isFile := (words h).head? == some "file" || (words h).head? == some "lfile"
     let toks := words ((obs.splitOn " | ").getD 0 "")
     let ops := ops.map words |>.filter (!·.isEmpty)
     if toks.length != ops.length then ("model", "observation-truncated", false) else
@@ -57,6 +57,9 @@ def runStore (c obs : String) : String × String × Bool :=
         match s.ws[i]? with
         | some w =>
           if !w.alive then (s, tainted, bad, outs ++ [tok]) else
+          if tainted.contains (i + 1000000) then
+            (if tok == "ok" then fail "commit reported success although the writer's file had been removed: nothing was persisted"
+             else ((commit s i (toNat! n) false).1, tainted, bad, outs ++ ["err"])) else
           if tainted.contains i then ((commit s i (toNat! n) false).1, tainted, bad, outs ++ [tok]) else
           -- memory store: committing over an existing entry is refused
           let dup := !isFile && (lookup w.key s.vis).isSome
@@ -69,6 +72,11 @@ def runStore (c obs : String) : String × String × Bool :=
           else if tok == "ok" then ((commit s i (toNat! n) true).1, tainted, bad, outs ++ ["ok"])
           else fail "commit failed without an injected failure"
         | none => (s, tainted, bad, outs ++ [tok])
+      | ["breakdir"] =>
+        -- the store's directory is removed under the live writers: every committed entry is gone, and the commit of a writer
+        -- created before cannot persist (its temporary file is gone): it must report an error (doomed: index + 1000000)
+        let doomed := (s.ws.zipIdx.filter (·.1.alive)).map (·.2 + 1000000)
+        ({ s with vis := [] }, doomed ++ tainted, bad, outs ++ [tok])
       | ["discardw", i] => (discardW s (toNat! i), tainted, bad, outs ++ [tok])
       | ["open", t, p, off] =>
         let want := «open» s (key t p) (toNat! off)
